@@ -23,6 +23,9 @@ pub fn run(args: &[String]) {
         Some("font") => font_cmd(args),
         Some("one") => one_cmd(args),
         Some("kernoff-corpus") => kernoff_corpus_cmd(),
+        Some("xstream") => xstream_cmd(args),
+        Some("anchors") => anchors_cmd(args),
+        Some("kernoff-bytes") => kernoff_bytes_cmd(args),
         Some("deep-chain") => deep_chain_cmd(args),
         _ => {
             eprintln!("c07 cases|font|one|kernoff-corpus|deep-chain");
@@ -348,8 +351,8 @@ fn gen_kern(r: &mut Rng, allow_cross: bool) -> Vec<KernSubtable> {
         let mut pairs: Vec<(u16, u16, i16)> = Vec::new();
         let np = r.range(1, 14);
         for _ in 0..np {
-            let l = r.range(1, (NG - 1) as u64) as u16;
-            let rr = r.range(1, (NG - 1) as u64) as u16;
+            let l = if r.chance(2, 3) { *r.pick(&[1u16, 2, 3, 4, 7]) } else { r.range(1, (NG - 1) as u64) as u16 };
+            let rr = if r.chance(2, 3) { *r.pick(&[1u16, 2, 3, 4, 7]) } else { r.range(1, (NG - 1) as u64) as u16 };
             let mut val = small(r);
             if val == 0 {
                 val = -33;
@@ -406,7 +409,24 @@ fn mk_lookup(r: &mut Rng, spec: &FontSpec, plain: (u64, u64), subtables: Vec<Pos
     Lookup { flags, mark_filtering_set: set, subtables, use_extension: r.chance(1, 10) }
 }
 
+/// Font indices >= XSTREAM_BASE: the Marks-profile font `index - XSTREAM_BASE` plus a legacy kern table
+/// whose first horizontal subtable is cross-stream (known-finding class kern_cross_stream_resets_attachments).
+pub const XSTREAM_BASE: u64 = 1_000_000;
+
 pub fn gen_font(seed: u64, index: u64) -> (FontSpec, Profile) {
+    if index >= XSTREAM_BASE {
+        let k = index - XSTREAM_BASE;
+        let (mut spec, _) = gen_font_plain(seed, k - k % 5 + 3);
+        let mut r = Rng::new(seed ^ index);
+        let mut kern = gen_kern(&mut r, false);
+        kern.insert(0, KernSubtable { horizontal: true, minimum: false, cross_stream: true, override_: false, pairs: vec![(1, 2, 50), (2, 1, -20)] });
+        spec.kern = Some(kern);
+        return (spec, Profile::Marks);
+    }
+    gen_font_plain(seed, index)
+}
+
+fn gen_font_plain(seed: u64, index: u64) -> (FontSpec, Profile) {
     let mut r = Rng::new(seed.wrapping_mul(0x9E37_79B9).wrapping_add(index.wrapping_mul(7919)).wrapping_add(0xC07));
     let r = &mut r;
     let profile = profile_of(index);
@@ -524,10 +544,15 @@ fn gen_text(r: &mut Rng, profile: Profile) -> Vec<u16> {
         0 => 1,
         1 => r.range(9, 24),
         2 if profile == Profile::Cursive || profile == Profile::Mixed => r.range(25, 64),
+        3 if profile == Profile::Cursive => r.range(65, 150), // attachment chains beyond the nesting limit
         _ => r.range(2, 8),
     } as usize;
     let mut t: Vec<u16> = Vec::new();
     while t.len() < len {
+        if profile == Profile::Kern && r.chance(1, 2) {
+            t.push(*r.pick(&[1u16, 2, 3, 4, 7]));
+            continue;
+        }
         match r.below(10) {
             0 | 1 | 2 | 3 => t.push(*r.pick(BASES)),
             4 | 5 => t.push(*r.pick(MARKS)),
@@ -556,7 +581,7 @@ fn gen_text(r: &mut Rng, profile: Profile) -> Vec<u16> {
             }
         }
     }
-    t.truncate(64);
+    t.truncate(if profile == Profile::Cursive { 150 } else { 64 });
     t
 }
 
@@ -696,6 +721,70 @@ fn cases_cmd(args: &[String]) {
     }
     for (k, v) in &stats.0 {
         println!("stat {} {}", k, v);
+    }
+}
+
+/// Known-finding probe: Marks fonts + a cross-stream kern subtable (font / case / geo lines as `cases`).
+fn xstream_cmd(args: &[String]) {
+    let seed = arg_u64(args, "--seed", 1);
+    let n = arg_u64(args, "--n", 4);
+    let mut stats = Stats(BTreeMap::new());
+    for k in 0..n {
+        run_font(seed, XSTREAM_BASE + 5 * k + 3, None, &mut stats);
+    }
+    for (k, v) in &stats.0 {
+        println!("stat {} {}", k, v);
+    }
+}
+
+/// Self-contained replay of an attachment fact on stored font bytes:
+/// --check "oi,oj,ax,ay,bx,by,axes": anchor (ax,ay) of output glyph oi must coincide with anchor (bx,by)
+/// of output glyph oj on the given axes ("xy", "x" or "y") in pen coordinates.
+fn anchors_cmd(args: &[String]) {
+    let font = arg_str(args, "--font").expect("--font");
+    let req = shp::parse_req(arg_str(args, "--req").unwrap_or(""));
+    let chk: Vec<String> = arg_str(args, "--check").unwrap_or("").split(',').map(|s| s.to_string()).collect();
+    let data = std::fs::read(font).expect("read font");
+    match shape_spec(&data, &req) {
+        Err(c) => println!("anchors panic {}", c),
+        Ok(gs) => {
+            let num = |k: usize| chk.get(k).and_then(|s| s.parse::<i64>().ok()).unwrap_or(0);
+            let (oi, oj) = (num(0) as usize, num(1) as usize);
+            let axes = chk.get(6).map(|s| s.as_str()).unwrap_or("xy");
+            if oi >= gs.len() || oj >= gs.len() {
+                println!("anchors FAIL index out of range; output {}", shp::fmt_g(&gs));
+                return;
+            }
+            let (mut x, mut y) = (0i64, 0i64);
+            let mut org = Vec::new();
+            for g in &gs {
+                org.push((x + g.xo as i64, y + g.yo as i64));
+                x += g.xa as i64;
+                y += g.ya as i64;
+            }
+            let a = (org[oi].0 + num(2), org[oi].1 + num(3));
+            let b = (org[oj].0 + num(4), org[oj].1 + num(5));
+            let ok = (!axes.contains('x') || a.0 == b.0) && (!axes.contains('y') || a.1 == b.1);
+            println!("anchors {} glyph[{}] anchor at ({},{}) glyph[{}] anchor at ({},{}) axes={} output {}", if ok { "ok" } else { "FAIL" }, oi, a.0, a.1, oj, b.0, b.1, axes, shp::fmt_g(&gs));
+        }
+    }
+}
+
+/// Self-contained replay of "kerning off changes nothing but the kern amounts": glyph ids and clusters
+/// with the request as given and with its kern switches removed must be the same sequence.
+fn kernoff_bytes_cmd(args: &[String]) {
+    let font = arg_str(args, "--font").expect("--font");
+    let req = shp::parse_req(arg_str(args, "--req").unwrap_or(""));
+    let data = std::fs::read(font).expect("read font");
+    let mut on = req.clone();
+    on.features.retain(|f| !(f == "kern=0" || f == "-kern"));
+    match (shape_spec(&data, &req), shape_spec(&data, &on)) {
+        (Ok(a), Ok(b)) => {
+            let ka: Vec<(u32, u32)> = a.iter().map(|g| (g.gid, g.cluster)).collect();
+            let kb: Vec<(u32, u32)> = b.iter().map(|g| (g.gid, g.cluster)).collect();
+            println!("kernoff {} off={} on={}", if ka == kb { "ok" } else { "FAIL" }, shp::fmt_g(&a), shp::fmt_g(&b));
+        }
+        _ => println!("kernoff panic"),
     }
 }
 
@@ -1109,8 +1198,8 @@ mod geo {
                 let ty = pen.oy[oj] + ta.y as i64;
                 stats.add(&format!("geo.{}.attachments", kind), 1);
                 if mx != tx || my != ty {
-                    fail(index, ci, kind, format!("mark glyph {} (output index {}) anchor at ({},{}) but target glyph {} (output index {}) anchor at ({},{}); output {}",
-                        og[i].gid, oi, mx, my, og[j].gid, oj, tx, ty, shp::fmt_g(gs)), req);
+                    fail(index, ci, kind, format!("chk={},{},{},{},{},{},xy mark glyph {} (output index {}) anchor at ({},{}) but target glyph {} (output index {}) anchor at ({},{}); output {}",
+                        oi, oj, ma.x, ma.y, ta.x, ta.y, og[i].gid, oi, mx, my, og[j].gid, oj, tx, ty, shp::fmt_g(gs)), req);
                     return;
                 }
             }
@@ -1151,8 +1240,9 @@ mod geo {
                     stats.add("geo.cursive.connections_rtl_flag", 1);
                 }
                 if !cross_ok || (between_zero && !main_ok) {
-                    fail(index, ci, "cursive", format!("entry anchor of glyph {} (output index {}) at ({},{}) but exit anchor of glyph {} (output index {}) at ({},{}); RightToLeft flag {}; output {}",
-                        og[i].gid, oi, ex, ey, og[p].gid, op, xx, xy, lk.flags & 1, shp::fmt_g(gs)), req);
+                    let axes = if between_zero { "xy" } else if horizontal(pd) { "y" } else { "x" };
+                    fail(index, ci, "cursive", format!("chk={},{},{},{},{},{},{} entry anchor of glyph {} (output index {}) at ({},{}) but exit anchor of glyph {} (output index {}) at ({},{}); RightToLeft flag {}; output {}",
+                        oi, op, entry.x, entry.y, exit.x, exit.y, axes, og[i].gid, oi, ex, ey, og[p].gid, op, xx, xy, lk.flags & 1, shp::fmt_g(gs)), req);
                     return;
                 }
                 if between_zero {
